@@ -25,6 +25,11 @@ import (
 type c19DNS struct {
 	TTL      string // -dns-ttl value
 	Resolver int    // how many resolver addresses are given (all of them the same server, in different spellings)
+	// ConnectTo: the target names a front address that -connect-to maps to the name only the DNS server knows;
+	// NoKeepAlive: -keepalive=false, every hit opens a connection. With a caching ttl (0 = for ever, 1h) the
+	// number of DNS queries must not grow with the number of connections.
+	ConnectTo   bool `json:",omitempty"`
+	NoKeepAlive bool `json:",omitempty"`
 }
 
 type c19DNSServer struct {
@@ -95,7 +100,11 @@ func runC19DNS(c c19DNS) error {
 	}
 	defer os.RemoveAll(dir)
 	tf := filepath.Join(dir, "targets")
-	if err := os.WriteFile(tf, []byte("GET http://svc.c19dns.test:"+port+"/\n"), 0o644); err != nil {
+	targetHost := "svc.c19dns.test:" + port
+	if c.ConnectTo {
+		targetHost = "front.c19dns.invalid:" + port
+	}
+	if err := os.WriteFile(tf, []byte("GET http://"+targetHost+"/\n"), 0o644); err != nil {
 		return err
 	}
 	var addrs []string
@@ -104,6 +113,12 @@ func runC19DNS(c c19DNS) error {
 	}
 	out := filepath.Join(dir, "out.gob")
 	args := []string{"-targets=" + tf, "-output=" + out, "-rate=100/s", "-duration=80ms", "-timeout=5s", "-resolvers=" + strings.Join(addrs, ","), "-dns-ttl=" + c.TTL}
+	if c.ConnectTo {
+		args = append(args, "-connect-to="+targetHost+":svc.c19dns.test:"+port)
+	}
+	if c.NoKeepAlive {
+		args = append(args, "-keepalive=false", "-duration=250ms")
+	}
 	var rerr error
 	if perr := vh.Try(func() { rerr = attackCmd().fn(args) }); perr != nil || rerr != nil {
 		return fmt.Errorf("vegeta attack %v: %v %v", args, perr, rerr)
@@ -125,6 +140,9 @@ func runC19DNS(c c19DNS) error {
 	if atomic.LoadInt64(&dns.queries) == 0 {
 		return fmt.Errorf("%s: the server given with -resolvers was never asked", what)
 	}
+	if q := atomic.LoadInt64(&dns.queries); c.NoKeepAlive && (c.TTL == "0" || c.TTL == "0s" || c.TTL == "1h") && len(rs) >= 12 && q > 12 {
+		return fmt.Errorf("%s with connect-to=%v and -keepalive=false: the DNS server answered %d queries for %d connections although answers are to be cached (a lookup costs up to four)", what, c.ConnectTo, q, len(rs))
+	}
 	if atomic.LoadInt64(&hits) != int64(len(rs)) {
 		return fmt.Errorf("%s: %d requests reached the target", what, hits)
 	}
@@ -133,7 +151,8 @@ func runC19DNS(c c19DNS) error {
 
 func TestC19ResolversCmd(t *testing.T) {
 	vh.Check(t, 6, 60, func(t *rapid.T) {
-		c := c19DNS{TTL: rapid.SampledFrom([]string{"0", "0s", "30ms", "1h", "-1", "-1s", "-1ns"}).Draw(t, "ttl"), Resolver: rapid.IntRange(1, 3).Draw(t, "nres")}
+		c := c19DNS{TTL: rapid.SampledFrom([]string{"0", "0s", "30ms", "1h", "-1", "-1s", "-1ns"}).Draw(t, "ttl"), Resolver: rapid.IntRange(1, 3).Draw(t, "nres"),
+			ConnectTo: rapid.Bool().Draw(t, "connectto"), NoKeepAlive: rapid.Bool().Draw(t, "nokeepalive")}
 		vh.Case("C19.resolverscmd", fmt.Sprintf("%+v", c), true, "ttl:"+c.TTL)
 		vh.Sample("C19.resolverscmd", true, c)
 		if err := runC19DNS(c); err != nil {
